@@ -306,4 +306,75 @@ Section CancelRecords.
         * inversion H; subst. cbn [lstop] in Hnr. congruence.
   Qed.
 
+  (* ---- the whole call ---- *)
+
+  Notation execute_all := (execute_all P F cancel_req IO).
+
+  Lemma classify_fuel (r : cres) cs x fin : classify r cs = KFail x fin -> x = RFuel -> r = CRes VFuel.
+  Proof.
+    intros H Hx. subst x. destruct r as [r|mb]; [|cbn in H; inversion H].
+    destruct r as [stk m|v stk m|stk m|x0 m| |]; [| | |destruct x0| |]; cbn [classify] in H;
+      try discriminate; try reflexivity; destruct (ctx_now cs); inversion H.
+  Qed.
+
+  (* ExecuteContext with a context cancelled at t returns (BEGIN, the record loop, END), provided
+     the record loop is polled: the first rule executes an instruction per record, or there is
+     no record loop at all (BEGIN-only program) *)
+  Theorem execute_all_returns fuel cp m0 t x fin cs' :
+    first_rule_dispatches (c_actions cp) \/ (c_actions cp = [] /\ c_end cp = []) ->
+    0 <= t -> t + checkContextOps - 1 < Z.of_nat fuel ->
+    execute_all fuel cp m0 (cs_execute_context true (Some t)) = (x, fin, cs') -> x <> RFuel.
+  Proof.
+    intros Hguard Ht Hfuel H Hx.
+    assert (HI0 : Inv (cs_execute_context true (Some t))).
+    { apply Inv_init. intros t' E. inversion E; subst. exact Ht. }
+    assert (Hd0 : done_at (cs_execute_context true (Some t)) = Some t) by reflexivity.
+    assert (Hl0 : left t (cs_execute_context true (Some t)) < Z.of_nat fuel) by (unfold left; cbn; lia).
+    remember (cs_execute_context true (Some t)) as cs0 eqn:Ecs0. clear Ecs0.
+    unfold Cancel.execute_all in H.
+    destruct (run_ctx fuel (c_begin cp) 0 [] m0 cs0) as [rb cs1] eqn:Eb.
+    pose proof (rcr _ _ _ _ _ _ _ _ _ HI0 Hd0 Hl0 Eb) as Hnb.
+    destruct (rci _ _ _ _ _ _ _ _ HI0 Eb) as (Hgb & Heb).
+    pose proof (classify_ok value St err rb cs1 Hgb) as Hcb.
+    assert (Hd1 : done_at cs1 = Some t) by (apply Heb; exact Hd0).
+    assert (Hl1 : left t cs1 < Z.of_nat fuel) by (destruct Heb as (Hc & _); unfold left in *; lia).
+    assert (Hend : forall stk m cs, Inv cs -> done_at cs = Some t -> left t cs < Z.of_nat fuel ->
+              (let '(re, cs3) := run_ctx fuel (c_end cp) 0 stk m cs in
+               match classify re cs3 with
+               | KFail r fin => (r, option_map (close IO) fin, cs3)
+               | KNil _ m3 | KExit m3 => (RStatus (io_exit_status IO (ms m3)), Some (close IO m3), cs3)
+               end) = (x, fin, cs') -> False).
+    { intros stk m cs HIc Hdc Hlc E.
+      destruct (run_ctx fuel (c_end cp) 0 stk m cs) as [re cs3] eqn:Ee.
+      pose proof (rcr _ _ _ _ _ _ _ _ _ HIc Hdc Hlc Ee) as Hne.
+      destruct (classify re cs3) eqn:Ec; inversion E; subst; try discriminate.
+      apply Hne. eapply classify_fuel; [exact Ec|reflexivity]. }
+    assert (Hacts : forall stk m1, Inv cs1 ->
+              forall ra cs2, exec_actions fuel fuel (c_actions cp) (repeat false (length (c_actions cp))) stk m1 cs1 = (ra, cs2) ->
+              first_rule_dispatches (c_actions cp) ->
+              ra <> CRes VFuel /\ good ra cs2 /\ done_at cs2 = Some t /\ left t cs2 < Z.of_nat fuel).
+    { intros stk m1 HI1 ra cs2 Ex Hg.
+      pose proof (exec_actions_returns fuel fuel _ _ _ _ _ _ _ _ Hg HI1 Hd1 Hl1 Hl1 Ex) as Hna.
+      destruct (exec_actions_inv value St err P F cancel_req IO fuel _ _ _ _ _ _ _ _ HI1 Ex) as (Hga & Hea).
+      repeat split; try assumption.
+      - apply Hea. exact Hd1.
+      - destruct Hea as (Hc & _). unfold left in *. lia. }
+    destruct (classify rb cs1) as [stk m1|m1|r fin0] eqn:Ecb.
+    - destruct Hguard as [Hg|[Ha He]].
+      + destruct (c_actions cp) as [|a acts] eqn:Ea; [contradiction|].
+        destruct (exec_actions fuel fuel (a :: acts) (repeat false (length (a :: acts))) stk m1 cs1) as [ra cs2] eqn:Ex.
+        destruct (Hacts stk m1 Hcb ra cs2 Ex Hg) as (Hna & Hga & Hd2 & Hl2).
+        pose proof (classify_ok value St err ra cs2 Hga) as Hca.
+        destruct (classify ra cs2) eqn:Eca.
+        * eapply Hend; eassumption.
+        * eapply Hend; eassumption.
+        * inversion H; subst. apply Hna. eapply classify_fuel; [exact Eca|reflexivity].
+      + rewrite Ha, He in H. inversion H; subst. discriminate.
+    - destruct Hguard as [Hg|[Ha He]].
+      + destruct (c_actions cp) as [|a acts] eqn:Ea; [contradiction|].
+        eapply Hend; eassumption.
+      + rewrite Ha, He in H. inversion H; subst. discriminate.
+    - inversion H; subst. apply Hnb. eapply classify_fuel; [exact Ecb|reflexivity].
+  Qed.
+
 End CancelRecords.
